@@ -208,7 +208,13 @@ pub(crate) fn spec_function(e: &ExpressionTree, ev: &dyn Fn(&ExpressionTree) -> 
                     _ if any_null => (Unspecified, ""),
                     _ => (Error, "fn-type-mismatch"),
                 },
-                (Function::TimestampExtractEpoch, [a]) => match a { Value::Timestamp(_) | Value::Null => (Unspecified, ""), _ => (Error, "fn-type-mismatch") },
+                // seconds since 1970-01-01 UTC with the milliseconds as fraction: a value for EVERY timestamp (also far outside
+                // 1677..2262), from the instant's whole seconds and milliseconds
+                (Function::TimestampExtractEpoch, [a]) => match a {
+                    Value::Timestamp(t) if t.timestamp_subsec_nanos() < 1_000_000_000 => (val(Value::Float(Float((t.timestamp() as f64 * 1000.0 + t.timestamp_subsec_millis() as f64) / 1000.0))), "epoch"),
+                    Value::Timestamp(_) | Value::Null => (Unspecified, ""),
+                    _ => (Error, "fn-type-mismatch")
+                },
                 _ => (Unspecified, ""),
             }
         }
@@ -226,6 +232,18 @@ pub(crate) fn spec_function(e: &ExpressionTree, ev: &dyn Fn(&ExpressionTree) -> 
                 (Value::String(s), ValueType::Bool) => match s.as_str() { "true" => (val(Value::Bool(true)), "cast-text-bool"), "false" => (val(Value::Bool(false)), "cast-text-bool"), _ => (Error, "cast-text-not-a-literal") },
                 (Value::String(s), ValueType::Float) => match s.parse::<f64>() { Ok(f) => (val(Value::Float(Float(f))), "cast-text-real"), Err(_) => (Error, "cast-text-not-a-literal") },
                 (Value::String(_), ValueType::Array(_)) => (Error, "cast-text-not-a-literal"),
+                // TEXT -> TIMESTAMP: the literal form `YYYY-MM-DD hh:mm:ss` as chrono reads it (independent call); anything else is an error
+                (Value::String(s), ValueType::Timestamp) => match crate::exprs::ts_parse_oracle(s) { Some(v) => (val(v), "cast-text-timestamp"), None => (Error, "cast-text-not-a-literal") },
+                // TEXT -> INTERVAL: `h:m:s` of three integers (moderate sizes decided here, huge ones left open)
+                (Value::String(s), ValueType::Interval) => {
+                    let parts: Vec<&str> = s.split(':').collect();
+                    let nums: Vec<Option<i64>> = parts.iter().map(|p| p.parse::<i64>().ok()).collect();
+                    if parts.len() != 3 || nums.iter().any(|n| n.is_none()) { (Error, "cast-text-not-a-literal") }
+                    else {
+                        let n: Vec<i64> = nums.iter().map(|n| n.unwrap()).collect();
+                        if n.iter().all(|x| x.abs() < 10_000_000) { (val(Value::Interval(Duration::seconds(n[0] * 3600 + n[1] * 60 + n[2]))), "cast-text-interval") } else { (Unspecified, "") }
+                    }
+                }
                 (Value::String(_), _) => (Unspecified, ""),
                 (Value::Interval(d), ValueType::Int) => (val(Value::Int(d.num_seconds())), "cast-interval-seconds"),
                 (Value::Interval(_), ValueType::Float) => (Unspecified, ""),
